@@ -6,12 +6,18 @@
      C17_no_exec_after_cancel   once the cancel flag is durable no task is executed any more, and the flag stays
      C17_cancel_sets_flag       handling CancelWorkflow on an unfinished workflow sets the flag in its first commit
      C17_jump_ignored           a JumpToStage handled after the cancel re-arms nothing (F4 repair)
+     C17_cancel_fans_out        handling CancelWorkflow commits, in ONE transaction with its processed mark, a CancelStage
+                                for EVERY stage that is not complete and a CompleteWorkflow
+     C17_cancel_stage_effect    handling CancelStage for a stage that is not complete (and may legally be canceled) sets
+                                it CANCELED together with all its NOT_STARTED / RUNNING tasks, in one commit
+     C17_run_task_after_cancel  a RunTask handled after the cancel executes nothing and commits CompleteTask(CANCELED)
    OPEN (not proved; decided only by the correspondence + implementation monitors, see DESIGN.md):
      C17_all_canceled           every stage with work still to do ends CANCELED
      C17_final                  the workflow reaches a final status (needs the token invariant). *)
 From Coq Require Import List Bool Arith ZArith.
 Import ListNotations.
 From Stab.model Require Import Base StatusM Readiness StageStat Engine.
+From Stab.gen Require Import Gen_Guards.
 From Stab.proofs Require Import EngineP EngineEx.
 
 Theorem C17_no_exec_after_cancel : forall (orc : oracle) (acts : list action) (s : state),
@@ -27,6 +33,44 @@ Theorem C17_jump_ignored : forall s id i tg c src,
   get_stage s i = Some src -> w_canceled s = true -> h_commits (handle_jump s id i tg c) = [[OMark id]].
 Proof. intros s id i tg c src H Hc. unfold handle_jump. rewrite H, Hc. reflexivity. Qed.
 
+Theorem C17_cancel_fans_out : forall s id,
+  is_complete (w_status s) = false ->
+  h_commits (handle_cancel_workflow s id) =
+    [[OCancelFlag]; [OMark id] ++ c_pushes (map MCancelStage (incomplete_stages s)) ++ [OPush (MCompleteWorkflow 0)] ++ []]
+  /\ forall i st, get_stage s i = Some st -> is_complete (s_status st) = false -> In i (incomplete_stages s).
+Proof.
+  intros s id H. split; [unfold handle_cancel_workflow; rewrite H; reflexivity|].
+  intros i st Hs Hc. unfold incomplete_stages. apply filter_In. split.
+  - unfold seqn. apply in_seq. split; [apply Nat.le_0_l|]. simpl. unfold get_stage in Hs.
+    apply nth_error_Some. rewrite Hs. discriminate.
+  - rewrite Hs, Hc. reflexivity.
+Qed.
+
+Theorem C17_cancel_stage_effect : forall s id i st,
+  get_stage s i = Some st -> is_complete (s_status st) = false -> can_transition (s_status st) CANCELED = true ->
+  exists st', h_commits (handle_cancel_stage s id i) = [[OPut i st'; OMark id]] /\ s_status st' = CANCELED /\
+              s_tasks st' = cancel_tasks (s_tasks st) /\
+              forall tk, In tk (s_tasks st') -> t_status tk <> NOT_STARTED /\ t_status tk <> RUNNING.
+Proof.
+  intros s id i st Hs Hc Ht. unfold handle_cancel_stage. rewrite Hs.
+  unfold Gen_Guards.cancel_stage_guard. rewrite Hc, Ht. simpl.
+  eexists. split; [reflexivity|]. simpl. repeat split.
+  - unfold cancel_tasks in H. apply in_map_iff in H. destruct H as [t0 [E _]].
+    destruct (status_eqb (t_status t0) NOT_STARTED || status_eqb (t_status t0) RUNNING) eqn:B; subst tk; simpl; [discriminate|].
+    apply orb_false_iff in B. destruct B as [B _]. intro E. rewrite E in B. discriminate.
+  - unfold cancel_tasks in H. apply in_map_iff in H. destruct H as [t0 [E _]].
+    destruct (status_eqb (t_status t0) NOT_STARTED || status_eqb (t_status t0) RUNNING) eqn:B; subst tk; simpl; [discriminate|].
+    apply orb_false_iff in B. destruct B as [_ B]. intro E. rewrite E in B. discriminate.
+Qed.
+
+Theorem C17_run_task_after_cancel : forall orc s id i t a st tk,
+  w_canceled s = true -> get_stage s i = Some st -> nth_error (s_tasks st) t = Some tk -> t_status tk = RUNNING ->
+  h_pre (handle_run_task orc s id i t a) = None /\
+  h_commits (handle_run_task orc s id i t a) = [[OMark id; OPush (MCompleteTask i t CANCELED)]].
+Proof.
+  intros orc s id i t a st tk Hc Hs Ht Hr. unfold handle_run_task. rewrite Hs, Ht, Hr, Hc. split; reflexivity.
+Qed.
+
 (* non-vacuity: cancel processed while A's task is about to run: the RunTask delivered afterwards executes nothing,
    the workflow ends CANCELED *)
 Example C17_witness :
@@ -39,3 +83,6 @@ Proof. vm_compute. repeat split. Qed.
 Print Assumptions C17_no_exec_after_cancel.
 Print Assumptions C17_cancel_sets_flag.
 Print Assumptions C17_jump_ignored.
+Print Assumptions C17_cancel_fans_out.
+Print Assumptions C17_cancel_stage_effect.
+Print Assumptions C17_run_task_after_cancel.
